@@ -293,16 +293,21 @@ func (d *decompressor) readMember() error {
 	}
 	skipped := int(d.cr.offset() - mark)
 	need := d.blockSize - skipped
-	if need == 0 {
-		return io.EOF
-	} else if need < 0 {
+	if need <= 0 {
+		// A member is never shorter than its own header: the
+		// block size field is corrupt.
 		return ErrCorrupt
 	}
 
 	// Read compressed data into the decompressor buffer until the
 	// underlying flate.Reader is positioned at the end of the gzip
 	// member in which the readMember call was made.
-	return d.buf.readLimited(need, d.cr)
+	err = d.buf.readLimited(need, d.cr)
+	if err == io.EOF {
+		// The data ends after a member header.
+		err = io.ErrUnexpectedEOF
+	}
+	return err
 }
 
 // Offset is a BGZF virtual offset.
